@@ -115,10 +115,11 @@ class Ctx:
         self.distinct: set = set()
         self.strata: Dict[str, int] = {}
         self.searched = False
+        self.searching = False  # widened failing-input search after a broken tie: generators use the thorough lattice
 
     @property
     def thorough(self) -> bool:
-        return self.tier == "thorough"
+        return self.tier == "thorough" or self.searching
 
     # ---- ties -------------------------------------------------------------
     def obligation(self, name: str, ok: bool, detail: str = "", kind: str = "theorem"):
